@@ -900,7 +900,20 @@ func runUnlockFail(s LeaseScenario) (info LeaseInfo, v *vstat.Violation, exact b
 	}
 	if s.InFlight > 0 {
 		close(fa.Resume)
-		time.Sleep(L / 20) // the one attempt that was already under way completes
+		// the one attempt that was already under way completes: wait until the storage wrapper has logged it (on a loaded
+		// machine the parked call may need many milliseconds to get going again) - the expiration read below must include it
+		for t := time.Now(); s.InFlight == 1 && time.Since(t) < 3*time.Second; time.Sleep(time.Millisecond) {
+			done := false
+			for _, e := range fa.Events() {
+				if e.Op == "cas" && e.T.After(unlockedAt) {
+					done = true
+				}
+			}
+			if done {
+				break
+			}
+		}
+		time.Sleep(L / 20)
 	}
 	info.InjectedFailures = 1
 	exp := unlockedAt
